@@ -2,10 +2,12 @@ module verif/harness
 
 go 1.23
 
-require trpc.group/trpc-go/trpc-mcp-go v0.0.0
+require (
+	github.com/getkin/kin-openapi v0.124.0
+	trpc.group/trpc-go/trpc-mcp-go v0.0.0
+)
 
 require (
-	github.com/getkin/kin-openapi v0.124.0 // indirect
 	github.com/go-openapi/jsonpointer v0.20.2 // indirect
 	github.com/go-openapi/swag v0.22.8 // indirect
 	github.com/google/uuid v1.6.0 // indirect
